@@ -21,9 +21,10 @@ from .util import *
 
 R_GAS = 8.314472                       # the constants as documented in arrhenius.py / eyring.py
 KB_OVER_H = 2.083664399411865234375e10
-UB_TEMPLATES = ('arrhenius', 'eyring', 'eyringhs', 'gibbs', 'radiolytic', 'param_arr', 'param_eyr', 'ratex_arr', 'ratex_eyr')
+UB_TEMPLATES = ('arrhenius', 'eyring', 'eyringhs', 'gibbs', 'radiolytic', 'param_arr', 'param_eyr', 'ratex_arr', 'ratex_eyr',
+                'rxn_arr', 'rxn_eyr')
 # reported to the coordinator (math.exp of an unsimplified kJ/J quantity); remove a name to activate its math-backend variant
-UNITS_PENDING_MATH = ()
+UNITS_PENDING_MATH = ()     # (was ('param_eyr',) until a388a51: eyring_equation simplifies dS/R before exp)
 DROPS = ('Poly', 'Piecewise', 'GibbsEqConst', 'EyringHS', 'Radiolytic')
 NEEDS_RXN = ('MassAction', 'Eyring', 'EyringHS')
 
@@ -66,6 +67,11 @@ class Gen:
         self.vars = {}
         self.dropped = None
         self.no_empty = 0
+        # MAGNITUDE REGIME of the constants of this case (gas-phase rate constants in cm3/molecule/s are ~1e-12, pre-exponential
+        # factors ~1e13, ...): every bare number / Constant / coefficient of the tree is multiplied by 10**k
+        self.mag = 0
+        if rng.random() < 0.4:
+            self.mag = rng.choice([-1, 1]) * rng.randint(6, 30)
 
     # ---- numbers --------------------------------------------------------------------------------
     def q(self, lo=1, hi=40, signed=False):
@@ -78,23 +84,35 @@ class Gen:
     def number(self, signed=True):
         """(json value, static python type)"""
         rng = self.rng
+        scaled = self.mag != 0 and rng.random() < 0.8
         if self.mode == 'rat':
-            if rng.random() < 0.5:
+            if rng.random() < 0.5 and not scaled:
                 v = rng.choice([0, 1, 1, 2, 3, 5, -1, -2, 7])
                 return v, 'I'
-            return rat_json(self.q(signed=signed)), 'Q'
+            qv = self.q(signed=signed)
+            if scaled:
+                qv = qv * Fraction(10) ** self.mag
+                if qv.denominator == 1:
+                    qv = qv + Fraction(1, 3) * Fraction(10) ** self.mag
+            return rat_json(qv), 'Q'
         r = rng.random()
-        if r < 0.25:
+        if r < 0.25 and not scaled:
             return float(rng.choice([0, 1, 1, 2, 3, -1, 0.5, -2])), 'F'
         v = float('%.6g' % (rng.uniform(0.1, 5) * (-1 if signed and rng.random() < 0.3 else 1)))
+        if scaled:
+            v = float('%.6ge%d' % (v, self.mag))
         return v, 'F'
 
     def var(self, name):
         if name not in self.vars:
             rng = self.rng
+            free = name in ('x', 'y', 'z', 'k1', 'k2', 'k3', 'k4')      # free variables follow the magnitude regime of the case
             if self.mode == 'rat':
                 signed = name in ('x', 'y', 'z', 'k1', 'k2', 'k3')
-                self.vars[name] = rat_json(self.q(signed=signed))
+                qv = self.q(signed=signed)
+                if free and self.mag:
+                    qv = qv * Fraction(10) ** self.mag + Fraction(1, 3) * Fraction(10) ** self.mag
+                self.vars[name] = rat_json(qv)
             else:
                 if name == 'temperature':
                     v = rng.uniform(200, 2000)
@@ -116,6 +134,8 @@ class Gen:
                     v = 6.62607015e-34
                 else:
                     v = rng.uniform(0.1, 5) * (-1 if rng.random() < 0.3 else 1)
+                    if free and self.mag:
+                        v = float('%.9ge%d' % (v, self.mag))
                 self.vars[name] = float('%.9g' % v)
         return name
 
@@ -149,13 +169,19 @@ class Gen:
         rng = self.rng
         r = rng.random()
         if r < 0.72 or depth <= 0:
+            scaled = self.mag != 0 and not positive and rng.random() < 0.6
             if self.mode == 'rat':
-                if rng.random() < 0.35:
+                if rng.random() < 0.35 and not scaled:
                     return {'t': 'num', 'v': rng.choice([0, 1, 2, 3, -1, 4])}, 'I'
-                return {'t': 'num', 'v': rat_json(self.q(signed=not positive))}, 'Q'
+                qv = self.q(signed=not positive)
+                if scaled:
+                    qv = qv * Fraction(10) ** self.mag + Fraction(1, 7) * Fraction(10) ** self.mag
+                return {'t': 'num', 'v': rat_json(qv)}, 'Q'
             v = float('%.6g' % rng.uniform(lo, hi))
             if not positive and rng.random() < 0.25:
                 v = -v
+            if scaled:
+                v = float('%.6ge%d' % (v, self.mag))
             return {'t': 'num', 'v': v}, 'F'
         if r < 0.78 and not positive:
             return {'t': 'str', 'v': self.var(rng.choice(['x', 'y', 'z']))}, ('Q' if self.mode == 'rat' else 'F')
@@ -328,7 +354,9 @@ class Gen:
             return self.new('EyringHS', args, 'F')
         if c == 'SinTemp':
             self.var('time')
-            return self.new('SinTemp', [self.arg(0) for _ in range(4)], 'F')   # raw numbers: sin of a huge argument is ill-conditioned
+            # plain O(1) numbers, no unique keys: sin of a huge argument is ill-conditioned
+            args = [({'t': 'num', 'v': float('%.6g' % (rng.uniform(0.1, 5) * rng.choice([1, 1, -1])))}, 'F') for _ in range(4)]
+            return self.new('SinTemp', args, 'F', p_over=0.0)   # raw numbers: sin of a huge argument is ill-conditioned
         if c == 'GibbsEqConst':
             self.var('temperature')
             dH = {'t': 'num', 'v': float('%.6g' % rng.uniform(-8000, 8000))}
@@ -650,7 +678,7 @@ class C16(Property):
             'SinTemp, MassActionEq, GibbsEqConst, Log10, Exp, ArrheniusParam/EyringParam.as_RateExpr; operators + - * / ** neg incl. '
             'reflected forms and the operands 0 / 1 of the short-cuts; unique_keys on 30 % of the instances (each key present with '
             'probability 1/2), `fk` construction, wrong argument counts, missing variables, reaction keyword absent / None / orders 1-3; '
-            'T in 200..2000 K. Half of the trees are rational-only and compared exactly. A case is non-trivial when it is a distinct JSON value.')
+            'T in 200..2000 K; 40 % of the trees live in a magnitude regime 10**k, 6 <= |k| <= 30, of all their constants. Half of the trees are rational-only and compared exactly. A case is non-trivial when it is a distinct JSON value.')
     assumptions = ('Float instantiation vs Python floats: relative tolerance 1e-9 (same libm, different association only through the model)',
                    'variables hold numbers (Expr-valued / str-valued variables are not modelled); dict arguments, sympy operands of '
                    '_implicit_conversion, plain UnaryWrapper instances and Expr.arg with a str index are outside the model',
@@ -694,7 +722,7 @@ class C16(Property):
     def generate(self, rng, n, tier):
         cases = []
         maxd = 3 if tier == 'quick' else 6
-        n_tree = int(n * 0.66)
+        n_tree = int(n * 0.64)
         for i in range(n_tree):
             mode = 'rat' if i % 2 == 0 else 'float'
             d = rng.randint(1, maxd)
@@ -717,6 +745,12 @@ class C16(Property):
             cases.append(self._radiolytic_case(rng))
         for i in range(int(n * 0.04)):
             cases.append(self._override0_case(rng, i))
+        for i in range(int(n * 0.03)):
+            k = rng.choice([-1, 1]) * rng.randint(0, 30)
+            cases.append({'kind': 'smallsum', 'tmpl': i % 4, 'k': k, 'T': float('%.7g' % rng.uniform(200, 2000)),
+                          'A': float('%.6ge%d' % (rng.uniform(1, 9), k)), 'E': float('%.6g' % rng.uniform(100, 3000)),
+                          'c': float('%.6ge%d' % (rng.uniform(1, 9) * rng.choice([1, -1]), k - rng.randint(0, 2))),
+                          'p': [float('%.5g' % rng.uniform(0.5, 2)), float('%.5g' % rng.uniform(1e-4, 1e-2))]})
         n_ub = int(n * 0.05)
         for i in range(n_ub):
             cases.append(self._ubackend_case(rng, i))
@@ -808,6 +842,8 @@ class C16(Property):
 
     def impl(self, mc):
         import math as _m
+        import warnings
+        warnings.filterwarnings('ignore', category=RuntimeWarning)
         if mc['op'] == 'eval':
             prog, vars_ = self._decode(mc)
             real = Real(mc['num'])
@@ -859,16 +895,23 @@ class C16(Property):
             # unselected Piecewise branch); the real-number model stops there: only the structures are compared
             io, mo = io.split(' = ')[0], mo.split(' = ')[0]
         if mo.endswith(' = !py:ZeroDivisionError') and ' = #' in io and _has_qty(mc['prog']):
-            # Eyring's default conc0 is a Quantity (a numpy array): dividing it by zero gives inf/nan instead of raising
-            v = b2f(io.split(' = #')[1])
-            if math.isinf(v) or math.isnan(v):
-                io, mo = io.split(' = ')[0], mo.split(' = ')[0]
+            # Eyring's default conc0 is a Quantity (a numpy array): dividing by such a zero gives inf/nan instead of raising, and the
+            # evaluation goes on (x / inf = 0): only the structures are compared
+            io, mo = io.split(' = ')[0], mo.split(' = ')[0]
         ti, ni = self._split_nums(io)
         tm, nm = self._split_nums(mo)
         return ti == tm and len(ni) == len(nm) and all(close(x, y, self.float_tol) for x, y in zip(ni, nm))
 
     # ---- the arithmetic meaning (oracle side; independent of the Lean model and of chempy) -------------------------
     def meaning(self, p, vars_, rxn, be):
+        """`_meaning` + bookkeeping of the largest intermediate magnitude (conditioning of the float evaluation: x - (x + k) with
+        |x| >> |k| loses k in floats but not symbolically; the comparison tolerance is widened by 1e-13 of that magnitude)"""
+        r = self._meaning(p, vars_, rxn, be)
+        if isinstance(r, float) and r == r and abs(r) != float('inf'):
+            self._maxabs = max(getattr(self, '_maxabs', 0.0), abs(r))
+        return r
+
+    def _meaning(self, p, vars_, rxn, be):
         """plain arithmetic value of a build program. `be`: module with exp/log10/sin. Raises Skip when undefined."""
         M = lambda q: self.meaning(q, vars_, rxn, be)
         t = p['t']
@@ -1108,7 +1151,7 @@ class C16(Property):
                 return Fraction(got) == Fraction(want)
             tol = 1e-12          # the real code divided two ints somewhere: a float, numerically the same number
         try:
-            return close(float(got), float(want), tol)
+            return close(float(got), float(want), tol, 1e-13 * getattr(self, '_maxabs', 0.0))
         except Exception:
             return False
 
@@ -1131,6 +1174,39 @@ class C16(Property):
             return self._oracle_radiolytic(c)
         if k == 'override0':
             return self._oracle_override0(c)
+        if k == 'smallsum':
+            return self._oracle_smallsum(c)
+        return None
+
+    def _oracle_smallsum(self, c):
+        """sums whose terms live at a common magnitude 10**k, -30 <= k <= 30 (e.g. gas-phase constants in cm3/molecule/s):
+        no term may be dropped -- judged against the closed formula, under math, numpy and sympy-then-substituted"""
+        from chempy.kinetics.rates import Arrhenius
+        from chempy.util._expr import create_Poly, Constant
+        import numpy as np, sympy
+        A, E, cc, p, T, t = c['A'], c['E'], c['c'], c['p'], c['T'], c['tmpl']
+        arr = Arrhenius([A, E])
+        kT = A * math.exp(-E / T)
+        try:
+            if t == 0:
+                expr, want = arr + cc * create_Poly('temperature')(p), kT + cc * (p[0] + p[1] * T)
+            elif t == 1:
+                expr, want = arr + Constant(cc), kT + cc
+            elif t == 2:
+                expr, want = cc + arr, cc + kT
+            else:
+                expr, want = (arr + cc) - create_Poly('temperature')([cc * p[0]]) * 2, kT + cc - 2 * cc * p[0]
+            v = {'temperature': T}
+            for bn, be in (('math', math), ('numpy', np)):
+                got = float(expr(v, backend=be))
+                if not close(got, want, 1e-9):
+                    return 'magnitude 1e%d: %r evaluates to %r with backend %s, the sum of its terms is %r' % (c['k'], expr, got, bn, want)
+            Ts = sympy.Symbol('T', positive=True)
+            got = float(expr({'temperature': Ts}, backend=sympy).subs(Ts, sympy.Float(T, 30)))
+            if not close(got, want, 1e-9):
+                return 'magnitude 1e%d: %r symbolically then substituted gives %r, the sum of its terms is %r' % (c['k'], expr, got, want)
+        except Exception as e:
+            return 'smallsum raised %s: %s' % (exc_name(e), str(e)[:100])
         return None
 
     def _oracle_radiolytic(self, c):
@@ -1270,7 +1346,7 @@ class C16(Property):
         Rq = float(to_unitless(const.molar_gas_constant, u.J / u.mol / u.K))
         kB = float(to_unitless(const.Boltzmann_constant, u.J / u.K))
         h = float(to_unitless(const.Planck_constant, u.J * u.s))
-        dHq, dSq = c['dH'] / efac * eu / u.mol, c['dS'] * u.J / u.K / u.mol
+        dHq, dSq = c['dH'] / efac * eu / u.mol, c['dS'] / efac * eu / u.K / u.mol     # BOTH in the (possibly non-coherent) energy unit
         RJ = R_GAS * u.J / u.mol / u.K
         kun = u.molar ** (1 - order) / u.s
 
@@ -1309,6 +1385,23 @@ class C16(Property):
                 ratex = EyringParamWithUnits(dHq, dSq).as_RateExpr()
                 return (to_unitless(ratex(v, backend=be, reaction=rxn), u.molar / u.s),
                         kBh * T * math.exp(c['dS'] / Rq) * math.exp(-c['dH'] / (Rq * T)) * prod)
+            if t in ('rxn_arr', 'rxn_eyr'):
+                # DEFAULT-argument conversion: Reaction(..., param).rate_expr() / .rate() call param.as_RateExpr() without arguments
+                kBh = float(to_unitless(const.Boltzmann_constant / const.Planck_constant, 1 / u.K / u.s))
+                if t == 'rxn_arr':
+                    par = ArrheniusParamWithUnits(c['A'] * kun, dHq)
+                    kT = c['A'] * math.exp(-c['dH'] / (Rq * T))
+                else:
+                    par = EyringParamWithUnits(dHq, dSq)
+                    kT = kBh * T * math.exp(c['dS'] / Rq) * math.exp(-c['dH'] / (Rq * T))
+                r = Reaction({'A': order}, {'P': 1}, par)
+                via_param = float(to_unitless(par(T * u.K), 1 / u.s if t == 'rxn_eyr' else kun)) * prod
+                if not close(via_param, kT * prod, 1e-9):
+                    raise AssertionError('param(T) = %r, SI formula %r' % (via_param / prod, kT))
+                via_expr = float(to_unitless(r.rate_expr()(v, backend=be, reaction=r), u.molar / u.s))
+                if not close(via_expr, kT * prod, 1e-9):
+                    raise AssertionError('Reaction(..., %r).rate_expr()(v) = %r but param(T)*prod = %r' % (par, via_expr, kT * prod))
+                return to_unitless(r.rate(v, backend=be)['P'], u.molar / u.s), kT * prod
             raise KeyError(t)
 
         for name, be in (('math', math), ('patched_numpy', patched_numpy), ('Backend()', Backend())):
@@ -1412,6 +1505,7 @@ class C16(Property):
         prog = map_nums(c['prog'], real.num)
         vars_ = {n: (real.num(v) if mode == 'float' else Fraction(real.num(v))) for n, v in c['vars']}
         rxn = c['rxn']
+        self._maxabs = 0.0
         try:
             want = self.meaning(prog, vars_, rxn, math)
         except Skip:
@@ -1471,7 +1565,7 @@ class C16(Property):
                 sv = sympy.nsimplify(sv) if not sv.is_Rational else sv
                 ok = sv.is_Rational and Fraction(int(sv.p), int(sv.q)) == Fraction(want)
             else:
-                ok = close(float(sympy.N(sv, 30)), float(want), self.float_tol)
+                ok = close(float(sympy.N(sv, 30)), float(want), self.float_tol, 1e-13 * self._maxabs)
         except Exception as e:
             return 'sympy backend: substituting into %s failed with %s' % (str(sexpr)[:120], exc_name(e))
         if not ok:
@@ -1722,6 +1816,8 @@ class C16(Property):
             return 'radiolytic:%d-names:%s' % (len(c['names']), 'sorted' if c['names'] == sorted(c['names']) else 'unsorted')
         if k == 'override0':
             return 'override0:%s:%s' % (c['cls'], c['val'])
+        if k == 'smallsum':
+            return 'smallsum:%d:1e%+03d' % (c['tmpl'], 10 * (c['k'] // 10))
         return 'rxnrate:' + c.get('which', '?')
 
     def extra_search(self, rng, tier, hints):
